@@ -1,8 +1,11 @@
 pub mod c01;
+pub mod c02;
+pub mod c03;
 pub mod common;
+pub mod session;
 
 use crate::engine::Prop;
 
 pub fn all() -> Vec<Box<dyn Prop>> {
-    vec![Box::new(c01::C01)]
+    vec![Box::new(c01::C01), Box::new(c02::C02), Box::new(c03::C03)]
 }
